@@ -15,7 +15,9 @@ VARIABLE h
 Put(f, k, v) == [x \in (DOMAIN f) \cup {k} |-> IF x = k THEN v ELSE f[x]]
 Has(f, k) == k \in DOMAIN f
 EmptyFn == [x \in {} |-> 0]
-NoRun == [st |-> "none", api |-> "", ok |-> TRUE, code |-> 0, cands |-> {}, stops |-> 0]
+NoRun == [st |-> "none", api |-> "", ok |-> TRUE, code |-> 0, coded |-> TRUE, cands |-> {}, stops |-> 0]
+\* run.coded: the result carries a code (FALSE: run() returned an error whose text holds none); exit codes are any
+\* i32 (negative ones included), so no integer can serve as the "no code" mark
 
 HInit == [ snd        |-> EmptyFn, \* task id -> [arb, thr, kind, st]; st: "open" | "true" | "false"
            prec       |-> {},      \* <<i, j>>: same arbiter, send i ended before send j started
@@ -26,6 +28,9 @@ HInit == [ snd        |-> EmptyFn, \* task id -> [arb, thr, kind, st]; st: "open
            started    |-> EmptyFn, \* arb -> task starts on that arbiter in order: [id, arb, tid, cur, sysok, afterJoin]
                                    \* (per arbiter: no predicate compares the order of starts of different arbiters)
            echoes     |-> {},      \* [arb, tid]: a marker sent through Arbiter::current() inside a task of arb ran on tid
+           echoRefused|-> {},      \* arbs: such a marker was refused (send returned false) although no stop of any kind
+                                   \* (stop() on that arbiter, System stop) had started: the loop that runs the task is
+                                   \* alive, so the handle Arbiter::current() returned there is not that arbiter
            created    |-> {},      \* arbiters whose Arbiter::new() has returned
            mustStop   |-> {},      \* arbiters created before the first System stop call started
            gone       |-> {},      \* arbiters whose join returned / that were observed gone
@@ -63,6 +68,9 @@ H_TaskStart(g, id, a, tid, cur, sysid) ==
                                          [id |-> id, arb |-> a, tid |-> tid, cur |-> cur,
                                           sysok |-> (sysid = g.sysId), afterJoin |-> (a \in g.gone)]))]
 H_Echo(g, a, tid) == [g EXCEPT !.echoes = @ \cup {[arb |-> a, tid |-> tid]}]
+\* the marker send has returned (applied at its end: stops started meanwhile only weaken the clause)
+H_EchoSend(g, a, ok) ==
+  [g EXCEPT !.echoRefused = IF ~ok /\ g.sysStarted = 0 /\ a \notin g.stopStarted THEN @ \cup {a} ELSE @]
 
 H_SysStopStart(g, code) ==
   [g EXCEPT !.sysStarted = @ + 1,
@@ -78,21 +86,26 @@ H_Join(g, a, ok) ==
         ELSE [g EXCEPT !.joined = Put(@, a, "timeout")]
 
 H_RunRet(g, api, ok, code) ==
-  [g EXCEPT !.run = [st |-> "ret", api |-> api, ok |-> ok, code |-> code, cands |-> g.cands, stops |-> g.sysStarted]]
+  [g EXCEPT !.run = [st |-> "ret", api |-> api, ok |-> ok, code |-> code, coded |-> TRUE,
+                     cands |-> g.cands, stops |-> g.sysStarted]]
+\* run() returned an error that carries no code
+H_RunRetNoCode(g, api) ==
+  [g EXCEPT !.run = [st |-> "ret", api |-> api, ok |-> FALSE, code |-> 0, coded |-> FALSE,
+                     cands |-> g.cands, stops |-> g.sysStarted]]
 H_RunTimeout(g) == [g EXCEPT !.run = [NoRun EXCEPT !.st = "timeout", !.cands = g.cands, !.stops = g.sysStarted]]
 H_BlockOn(g, e, x) == [g EXCEPT !.blockon = @ \cup {<<e, x>>}]
 
 (* ------------------------------ C09 ------------------------------ *)
 \* run_with_code returns the code of a stop call that no other stop call preceded; it does return.
-\* (for run(): the code carried by the error, -1 if it carries none)
+\* (for run(): the code carried by the error, if it carries one)
 C09_FirstCodeWins ==
   /\ h.run.st # "timeout"
   /\ h.run.st = "ret" =>
        /\ h.run.stops > 0
        /\ h.run.api = "run_with_code" => (h.run.ok /\ h.run.code \in h.run.cands)
-       /\ (h.run.api = "run" /\ ~h.run.ok /\ h.run.code # -1) => h.run.code \in h.run.cands
+       /\ (h.run.api = "run" /\ ~h.run.ok /\ h.run.coded) => h.run.code \in h.run.cands
 
-\* run(): Ok exactly for code 0
+\* run(): Ok exactly for code 0; every other code, negative ones included, is an error
 C09_RunErrOnNonZero ==
   (h.run.st = "ret" /\ h.run.api = "run" /\ h.run.stops > 0) =>
      IF h.run.ok THEN 0 \in h.run.cands ELSE (h.run.cands \ {0}) # {}
@@ -127,13 +140,14 @@ C10_AtMostOnce ==
 
 \* tasks of one arbiter run on one thread that is no client thread (system arbiter: the system thread),
 \* different arbiters on different threads; there Arbiter::current() and System::current() are that
-\* arbiter (a marker sent through it runs on the same thread) and that system
+\* arbiter (a marker sent through it is accepted while no stop was issued, and runs on the same thread) and that system
 C10_OnOwnThread ==
   /\ \A s \in AllStarts :
         /\ s.cur = "ok" /\ s.sysok
         /\ IF s.arb = 0 THEN (h.sysTid # 0 => s.tid = h.sysTid) ELSE s.tid \notin h.clients
         /\ \A s2 \in AllStarts : (s2.arb = s.arb) <=> (s2.tid = s.tid)
   /\ \A e \in h.echoes : \A s \in AllStarts : s.arb = e.arb => s.tid = e.tid
+  /\ h.echoRefused = {}
 
 \* nothing whose send started after a stop() call on that arbiter ended ever starts
 C10_NothingAfterStop == \A id \in h.afterStop : ~Started(id)
@@ -161,4 +175,7 @@ NT_AfterGone == h.afterGone # {}
 NT_MustStop == h.mustStop # {}
 NT_TwoStops == h.sysStarted > 1
 NT_Early == h.early # {}
+NT_SelfSend == \E id \in DOMAIN h.snd : h.snd[id].thr \notin h.clients   \* sent from a worker arbiter's own thread
+NT_Echo == h.echoes # {}
+NT_NegCode == \E c \in h.cands : c < 0
 =============================================================================
